@@ -10,6 +10,20 @@ claimed={
         "bounds: 4 topologies of 3-4 IPs, one operation, single clean fault; crash-between-calls part is covered at plugin level only to the extent of the scenario harnesses; trusted: fake FloatingIP client (clean failures), abstract JSON codec of the engine"),
  'C08':("model_checking","AllocateInSubnetsAndIPRange executed symbolically from a symbolic pre-state for 1..3 pairwise-disjoint requested ranges in any order and a creation failure at a symbolic position: exactly one fresh IP per range, in order, routable, or nothing",
         "bounds: quick 2 / thorough 4 topologies, ranges with endpoints among the configured addresses; unit level (crdIpam); Bind-level annotation order not yet covered"),
+ 'C01':("model_checking","bounded histories of the real plugin over API-server fakes (re-incarnation scenario; symbolic policy, event order, lister lag, one clean API fault at a symbolic call index, retried bind); after every step no two live pods hold the same IP and every live bound pod owns its IP",
+        "sequential histories only (no thread interleavings yet); bounds in the evidence; fakes of API server/listers trusted"),
+ 'C02':("model_checking","re-incarnation histories (finish/delete, events handled early/late/never, resync) over topologies with several node subnets: a pod identity with a reserving policy is re-bound with the IP reserved for it, on any node Filter approves",
+        "bounds in the evidence; deployments covered through the app-reserve path; rolling update with several replacement pods only in the thorough tier"),
+ 'C03':("model_checking","workload life cycles (4 workload kinds x symbolic policy x symbolic replica count x workload deleted/scaled before or after the pod ends x events handled or lost) run to quiescence and compared in both directions with a reference model of the documented release contract",
+        "oracle = doc/float-ip.md + property text (DESIGN.md appendix B); one known finding (app-reserve IP of an immutable deployment never freed) is listed in known_findings.txt and reported as KNOWN-FINDING"),
+ 'C06':("model_checking","Filter then Bind executed symbolically from a symbolic allocation pre-state (owner/policy/uid/node per IP symbolic) over 4 pool topologies, 5 candidate nodes, requested-range shapes: every approved node can be bound, the IP is routable and carries its pool's mask/gateway/VLAN, held IPs restrict the offer, fresh default pods are offered exactly the nodes with a free routable IP",
+        "bounds in the evidence; no faults, caches in sync (the property's 'nothing else changes')"),
+ 'C07':("model_checking","bounded histories over {filter next pod, bind any filtered pod, delete+event, resize pool to a symbolic size, resync} for pods of a deployment sharing a sized pool: the number of IPs under the pool never exceeds the size in force",
+        "operations run atomically (filters of several pods may precede their binds); true preemption inside filter and the HTTP pre-allocation path are not covered yet"),
+ 'C09':("model_checking","(a) administrator reservation with symbolic arrival of its watch event vs. scheduling; (b) reload to changed configurations (real JSON decode of the config text) keeps exactly the still-configured allocations; (c) a bind running atomically inside any API-call window of a reload",
+        "interference granularity = API-server calls, one interferer; bounds in the evidence"),
+ 'C10':("model_checking","re-incarnation histories with a recording cloud provider whose per-IP state machine asserts inside AssignIP/UnAssignIP and inside store delete/update; one clean API/provider fault at a symbolic call index with a retried bind; pods moving between nodes of one subnet",
+        "sequential histories; provider idempotent on UnAssign of an unheld IP"),
  'C04':("model_checking","bounded histories of the real plugin (Filter, Bind, unbind, resyncPod, Release) over fakes of the API server: re-incarnation scenario with symbolic policy, event order, lister lag; after every step every live bound pod must still own its IP (solver decides every symbolic branch; counterexamples replayed natively)",
         "bounds: see evidence bounds; sequential histories (event orders, lags) only - no thread interleavings; fakes of API server/listers trusted"),
 }
